@@ -416,3 +416,6 @@ Definition spec_decode (bs : list N) : option (list N) :=
       end
     end
   end.
+
+Definition bytes_of_result (r : enc_result) : list N :=
+  match r with EncOk b => b | _ => [] end.
